@@ -555,9 +555,8 @@ def canon_spec(ans):
 
 def attach_expectations(ctx, cases):
     if ctx.lean is None or ctx.lean.driver is None:
-        for c in cases:
-            yield c
-        return
+        raise RuntimeError('C15 needs the Lean driver: the reference semantics decides the domain and supplies the expected '
+                           'outcome of every case; without it nothing would be checked')
     answers = ctx.lean.run_driver([c['line'] for c in cases])
     for c, a in zip(cases, answers):
         ans = loads(a)
@@ -627,6 +626,18 @@ def generate(ctx):
             batch = []
     if batch:
         yield from attach_expectations(ctx, batch)
+    flag_out_of_fuel(ctx)
+
+
+def flag_out_of_fuel(ctx):
+    """generated cases terminate by construction: one that exhausts the fuel of the reference semantics was NOT checked, and
+    says that FUEL (or the generator's growth control) needs attention; the run is flagged, visibly"""
+    n = ctx.stats.get('dropped_out_of_fuel', 0)
+    if n:
+        ctx.stats['FLAG_unchecked_out_of_fuel (FUEL=%d too small or a generated case does not terminate)' % FUEL] = n
+        import sys
+        sys.stderr.write('%s: FLAG: %d generated cases exhausted FUEL=%d under the reference semantics and were not checked\n'
+                         % (PROP, n, FUEL))
 
 
 def case_from_json(c):
@@ -745,7 +756,9 @@ def _invoke(domain, insts, e):
 def _judge(case, obs, calls, raised):
     fails = []
     exp = case.get('expect')
-    if exp is not None and obs != exp:
+    if exp is None:
+        raise RuntimeError('case %r carries no expectation of the reference semantics' % (case.get('id'),))
+    if obs != exp:
         comp, what = 'shape', ''
         if raised is not None:
             k, msg = raised
